@@ -544,7 +544,7 @@ def run_iter(d):
 
 
 SUBCHECKS = [
-    SubCheck("ctx_st", run_ctx_st, strategy=lambda: st_case("st"), quick=3000, thorough=150000),
-    SubCheck("ctx_mt", run_ctx_mt, strategy=lambda: st_case("mt"), quick=1200, thorough=30000),
-    SubCheck("iter", run_iter, strategy=lambda: st_case("iter"), quick=4000, thorough=250000),
+    SubCheck("ctx_st", run_ctx_st, strategy=lambda: st_case("st"), quick=2500, thorough=150000),
+    SubCheck("ctx_mt", run_ctx_mt, strategy=lambda: st_case("mt"), quick=1000, thorough=30000),
+    SubCheck("iter", run_iter, strategy=lambda: st_case("iter"), quick=3500, thorough=250000),
 ]
